@@ -1,7 +1,7 @@
 --------------------------- MODULE Trace_Sanitize ---------------------------
 (* C20, step 3: every observed KeyToLabel(key) must equal Sanitize(key); the e2e events check that a
    container carrying Docker label key=value is selected by {Sanitize(key)="value"}. *)
-EXTENDS TraceCommon, Labels
+EXTENDS TraceCommon, Labels, Names
 
 VARIABLES key
 vars == <<tcvars, key>>
@@ -16,7 +16,9 @@ KeyOk == Ev.out = Sanitize(key)
 EvKey == IsEv("Key") /\ KeyOk /\ Accept /\ UNCHANGED key
 
 \* e2e: the harness asked the Docker-backed storage for {<label>="v"} where label is the *observed* mapping
-SelOk == Ev.label = Sanitize(key) /\ Ev.selected = TRUE /\ Ev.others = 0
+\* (a name that is a reserved word of the query language cannot be written in a selector: whatever happens then is left open;
+\* every other name - Max, IP, Keep differ from reserved words by their case - must be accepted and must select)
+SelOk == Ev.label = Sanitize(key) /\ (IF Sanitize(key) \in ReservedWords THEN TRUE ELSE Ev.parsed /\ Ev.selected = TRUE /\ Ev.others = 0)
 EvSel == IsEv("Selected") /\ SelOk /\ Accept /\ UNCHANGED key
 
 \* the same key as a JSON field extracted by `| json` (no field list): exposed under the sanitised name with its value
